@@ -45,6 +45,8 @@ ROWS = {
  "clean_thorough": dict(acts=S("CvKnotInsert", "CvDegreeIncrease", "CvClean"), scenario="history", prep=2, depth=4, maxnpts=4, nodesize=1, props=["CleanProps"], wts='"none", "gen", "const"', pts='"gen", "homlin", "bump"'),
  "misc_quick": dict(acts=S("CvCopy", "CvFraction"), maxnpts=4),
  "deriv_quick": dict(acts=S("CvDerivate"), props=["DerivFormulaAgrees"]),
+ # two interior knots of full multiplicity (two discontinuities) need npts = 3 (p + 1): beyond MaxNpts = 5 of deriv_quick
+ "deriv_disc_quick": dict(acts=S("CvDerivate"), props=["DerivFormulaAgrees"], degs="DegsN", maxnpts=9),
  "deriv_thorough": dict(acts=S("CvDerivate"), props=["DerivFormulaAgrees"], degs="Degs4", maxnpts=7, wts='"none", "gen", "gen2"'),
  "integ_quick": dict(acts=S("CvIntegrate", "IntegrateFn"), props=["IntegralAgrees"], wts='"none"'),
  "integ_thorough": dict(acts=S("CvIntegrate", "IntegrateFn"), props=["IntegralAgrees"], wts='"none"', degs="Degs4", maxnpts=8, pts='"gen", "unit"'),
